@@ -371,9 +371,10 @@ func check(c Case) engine.Outcome {
 			}
 			o.Add("rendered_after_a_failed_write", 1)
 		}
-		rep := c.Tree.Build().Report(helper.SliceToChan(sn))
 		var err error
-		if verdict, detail := pipe.Call(func() { err = rep.WriteToWriter(&buf) }); verdict != "ok" {
+		// (the report is built INSIDE the guarded call: goroutines that exist before the call are
+		// outside the census, and a caller parked on them would look like a deadlock)
+		if verdict, detail := pipe.Call(func() { err = c.Tree.Build().Report(helper.SliceToChan(sn)).WriteToWriter(&buf) }); verdict != "ok" {
 			o.Failf("%s: WriteToWriter never returned (the page reads its columns row by row): %s: %s", c.Tree, verdict, detail)
 			return o
 		}
